@@ -18,7 +18,10 @@ and a witness in the correspondence stream:
   4. `replace_account_storage` on a not existing address makes `basic` answer an (empty) account;
   5. after a committed self-destruct, a later plain touch of the address makes the *underlying*
      storage visible again.
-`State` is covered on its read side (account / storage / code caches, block-hash cache with
+The immutable path (`impl DatabaseRef for CacheDB`, which is separate Rust code) is modelled by its
+own functions (`CacheDB.basicRef`, `storageRef`, `codeByHashRef`, `blockHashRef`, `hasStorageRef`,
+`refQuery`); `ref_path_eq_mut_path` proves that it answers like the mutable path on every cache
+state. `State` is covered on its read side (account / storage / code caches, block-hash cache with
 pruning) and arbitrary stacks of wrappers by `stack_query`. Not covered here: `State::commit`
 (property C15) and error propagation (the generated underlying database is infallible). -/
 namespace Revm.Props.C20
